@@ -303,9 +303,45 @@ def _only_err_exits(fn, region):
     return True
 
 
+STORAGE_WIDTH = {"PhysicalI8": 1, "PhysicalI16": 2, "PhysicalI32": 4, "PhysicalI64": 8, "PhysicalI128": 16, "PhysicalU8": 1, "PhysicalU16": 2,
+                 "PhysicalU32": 4, "PhysicalU64": 8, "PhysicalU128": 16, "PhysicalF16": 2, "PhysicalF32": 4, "PhysicalF64": 8, "PhysicalBool": 1,
+                 "PhysicalInterval": 16}
+PLAIN_WIDTH = {"PlainTypeI32": 4, "PlainTypeI64": 8, "PlainTypeF32": 4, "PlainTypeF64": 8, "PlainTypeBool": 1, "PlainTypeInt96": 12}
+
+
+def rule_readwidth(facts):
+    """`PrimitiveValueReader<S, T>` copies size_of::<S::StorageType>() bytes per value out of the page with an unchecked read, while the
+    page (and every remaining-bytes guard computed from the Parquet physical type T) holds size_of::<T::Native>() bytes per value. An
+    instantiation whose two widths differ reads past the end of the page buffer after a fraction of the values."""
+    r = RuleResult("C16-READWIDTH", "every instantiation of the unchecked primitive value reader pairs a storage type and a Parquet physical type of the same byte width", floor=4)
+    seen = {}
+    for rec in facts.all_fns(["glaredb_ext_parquet"]):
+        if "PrimitiveValueReader<" not in str(rec["bbs"]) or "::tests::" in rec["id"] or "testutil" in rec["id"]:
+            continue
+        fn = Fn(rec)
+        for c in fn.calls():
+            for a in (c.gargs or []):
+                for m in re.finditer(r"PrimitiveValueReader<([\w:]+), ([\w:]+)>", a):
+                    seen.setdefault((m.group(1).rsplit("::", 1)[-1], m.group(2).rsplit("::", 1)[-1]), (rec, c.line))
+    for (st, pt), (rec, line) in sorted(seen.items()):
+        r.functions.add(rec["id"])
+        r.call_sites += 1
+        sw, pw = STORAGE_WIDTH.get(st), PLAIN_WIDTH.get(pt)
+        if pt == "PlainTypeFixedLenByteArray" and st == "PhysicalF16":
+            r.exempt(f"PrimitiveValueReader<{st}, {pt}>", "FLOAT16 is FIXED_LEN_BYTE_ARRAY(2) by the Parquet specification; the 2-byte type length is part of the logical type")
+            r.inst({"storage": st, "plain": pt, "widths": [2, "type_length (2 for FLOAT16)"]})
+            continue
+        ok = sw is not None and pw is not None and sw == pw
+        r.inst({"storage": st, "plain": pt, "widths": [sw, pw]}, ok)
+        if not ok:
+            r.violate(rec["id"], f"width-mismatch:{st}/{pt}", f"PrimitiveValueReader<{st}, {pt}> (instantiated at line {line}) reads {sw} bytes per value with an unchecked cursor read "
+                      f"from pages that hold {pw} bytes per value: out-of-bounds read of the page buffer", rec["file"], line)
+    return r
+
+
 def run(ctx):
     facts = ctx["facts"]
-    res = [rule_cell(facts), rule_atomic(facts), rule_phase(facts), rule_heapsz(facts)]
+    res = [rule_cell(facts), rule_atomic(facts), rule_phase(facts), rule_heapsz(facts), rule_readwidth(facts)]
     return res
 
 
